@@ -27,8 +27,16 @@ E = "http://v/"
 ENT = ["e0", "e1", "e2", "e3"]
 OBJ = ["e0", "e1", "e2"]
 PRED = ["p0", "p1", "p2"]
-TID = {"e0": 1, "e1": 2, "e2": 3, "e3": 4, "p0": 11, "p1": 12, "p2": 13, "q0": 21}
-QVARS = ["a", "b", "c", "d", "e", "f"]
+TID = {"e0": 1, "e1": 2, "e2": 3, "e3": 4, "p0": 11, "p1": 12, "p2": 13, "q0": 21, "q1": 22, "q2": 23,
+       "r0": 31, "r1": 32, "r2": 33, "r3": 34, "r4": 35, "r5": 36}
+# literals with blanks / shared prefixes whose space-joined concatenations coincide
+LITS = ["Anna Maria", "Smith", "Anna", "Maria Smith", "Anna Maria Smith", "Maria", "A", "B C", "A B", "C", "B", "C D", "D", "A B C"]
+LID = {t: 101 + i for i, t in enumerate(LITS)}
+QVARS = ["a", "b", "c", "d", "e", "f", "o", "p", "s"]     # alphabetical = numerical; o, p, s: the default plan ?s ?p ?o
+# stream IRIs that differ only in the namespace part (equal local names), '#'- and ':'-separated forms included
+BVARS = QVARS[:6]
+NS_STREAMS = ["http://siteA.example/obs", "http://siteB.example/obs", "http://siteB.example/ns#obs", "urn:plant1:obs",
+              "urn:plant2:obs", "http://siteA.example/deep/obs"]
 OPS = {"R": "RSTREAM", "I": "ISTREAM", "D": "DSTREAM"}
 POL = {"wait": "Wait", "steal": "Steal", "timeout_steal": "TimeoutSteal", "timeout_drop": "TimeoutDrop"}
 
@@ -38,21 +46,46 @@ def iri(x):
     return "<%s%s>" % (E, x)
 
 
+def tid(x):
+    return TID[x] if x in TID else LID[x]
+
+
+def nt_term(x):
+    return '"%s"' % x if x in LID else iri(x)
+
+
 def term_txt(t):
-    return "?" + t[1] if t[0] == "v" else iri(t[1])
+    return "?" + t[1] if t[0] == "v" else nt_term(t[1])
 
 
 def pats_txt(pats):
     return " ".join("%s %s %s ." % tuple(term_txt(x) for x in p) for p in pats)
 
 
+def stream_ref(key):
+    """how the query names a stream: a full IRI in <>, a plain name as :name"""
+    return "<%s>" % key if (":" in key or "/" in key) else ":" + key
+
+
+def stream_arg(key, k):
+    """the spelling handed to add_to_stream for the k-th event (all of them denote the same stream)"""
+    if ":" in key or "/" in key:
+        return key if k % 2 == 0 else "<%s>" % key
+    return key if k % 2 == 0 else ":" + key
+
+
+def block_order(c):
+    order = c.get("block_order") or list(range(len(c["windows"])))
+    return [i for i in order if i not in (c.get("no_block") or [])]
+
+
 def query_txt(c):
     q = "REGISTER %s <http://out/stream> AS\nSELECT *\n" % OPS[c["op"]]
     for i, w in enumerate(c["windows"]):
-        q += "FROM NAMED WINDOW :w%d ON :%s [RANGE %d STEP %d]\n" % (i, w["stream"], w["w"], w["s"])
+        q += "FROM NAMED WINDOW :w%d ON %s [RANGE %d STEP %d]\n" % (i, stream_ref(w["stream"]), w["w"], w["s"])
     q += "WHERE {\n"
-    for i, b in enumerate(c["blocks"]):
-        q += "  WINDOW :w%d { %s }\n" % (i, pats_txt(b))
+    for i in block_order(c):             # WINDOW blocks in the textual order of the case, tied to windows by NAME
+        q += "  WINDOW :w%d { %s }\n" % (i, pats_txt(c["blocks"][i]))
     if c["static_p"]:
         q += "  %s\n" % pats_txt(c["static_p"])
     return q + "}"
@@ -65,12 +98,13 @@ def can_lockstep(c):
 
 def driver_case(c, seeds):
     ids, evs = {}, []
-    for stream, s, p, o, ts in c["evs"]:
-        k = (s, p, o)
-        ids.setdefault(k, len(ids) + 1)
-        evs.append({"stream": stream, "nt": "%s %s %s ." % (iri(s), iri(p), iri(o)), "id": ids[k], "ts": ts})
+    for k, (stream, s, p, o, ts) in enumerate(c["evs"]):
+        key = (s, p, o)
+        ids.setdefault(key, len(ids) + 1)
+        evs.append({"stream": stream, "stream_arg": stream_arg(stream, k),
+                    "nt": "%s %s %s ." % (nt_term(s), nt_term(p), nt_term(o)), "id": ids[key], "ts": ts})
     return ({"windows": c["windows"], "query": query_txt(c),
-             "static": "".join("%s %s %s .\n" % tuple(iri(x) for x in t) for t in c["static_t"]),
+             "static": "".join("%s %s %s .\n" % tuple(nt_term(x) for x in t) for t in c["static_t"]),
              "policy": c["policy"], "evs": evs, "stop": bool(c.get("stop")), "seeds": seeds,
              "coord": len(c["windows"]) > 1 or bool(c["static_p"]), "lockstep": can_lockstep(c),
              "hold_coord": bool(c.get("hold_coord"))},
@@ -78,7 +112,7 @@ def driver_case(c, seeds):
 
 
 def coq_term(t):
-    return "V %d" % QVARS.index(t[1]) if t[0] == "v" else "C %d" % TID[t[1]]
+    return "V %d" % QVARS.index(t[1]) if t[0] == "v" else "C %d" % tid(t[1])
 
 
 def coq_pats(pats):
@@ -86,21 +120,28 @@ def coq_pats(pats):
 
 
 def coq_triples(ts):
-    return "[" + "; ".join("(%d, %d, %d)" % (TID[t[0]], TID[t[1]], TID[t[2]]) for t in ts) + "]"
+    return "[" + "; ".join("(%d, %d, %d)" % (tid(t[0]), tid(t[1]), tid(t[2])) for t in ts) + "]"
 
 
 def coq_cfg(c):
-    return "(add_static %s (mkCfg [%s] %s [] %s %s))" % (coq_triples(c["static_t"]), "; ".join(coq_pats(b) for b in c["blocks"]),
-                                                       "(Some %s)" % coq_pats(c["static_p"]) if c["static_p"] else "None",
-                                                       POL[c["policy"]], OPS[c["op"]])
+    """window names (= indices) in declaration order, WINDOW blocks in textual order with their names: the model pairs
+    them by name (Model.pair_blocks), a declared window without a block gets ?s ?p ?o"""
+    named = "; ".join("(%d, %s)" % (i, coq_pats(c["blocks"][i])) for i in block_order(c))
+    return "(mk_cfg [%s] [%s] %s %s %s %s)" % ("; ".join(str(i) for i in range(len(c["windows"]))), named,
+                                               "(Some %s)" % coq_pats(c["static_p"]) if c["static_p"] else "None",
+                                               coq_triples(c["static_t"]), POL[c["policy"]], OPS[c["op"]])
 
 
 def coq_rows(rows):
     return "[" + "; ".join("[" + "; ".join("(%d, %d)" % kv for kv in r) + "]" for r in rows) + "]"
 
 
+def val_id(v):
+    return TID[v[len(E):]] if v.startswith(E) else LID[v]       # IRIs come back bare, literals as their text
+
+
 def canon_impl_rows(rows):
-    return sorted(sorted((QVARS.index(k), TID[v[len(E):]]) for k, v in row) for row in rows)
+    return sorted(sorted((QVARS.index(k), val_id(v)) for k, v in row) for row in rows)
 
 
 def canon_model_rows(rows):
@@ -126,7 +167,7 @@ def gen_pat(rng, vars_, preds):
 def gen_case(rng, nmax=24):
     nw = rng.choice([2, 2, 2, 3, 3, 1])
     share = rng.random() < 0.4                      # streams share their vocabulary (-> mostly the known class) or not
-    streams = ["s%d" % i for i in range(nw)]
+    streams = rng.sample(NS_STREAMS, nw) if rng.random() < 0.4 else ["s%d" % i for i in range(nw)]
     if nw >= 2 and rng.random() < 0.12:
         streams[1] = streams[0]                     # two windows over one stream
     wins = [{"w": rng.choice([1, 2, 3, 4, 6]), "s": rng.choice([1, 2, 2, 3, 4]), "stream": streams[i]} for i in range(nw)]
@@ -136,24 +177,135 @@ def gen_case(rng, nmax=24):
     blocks = []
     joinvars = rng.random() < 0.4                   # blocks share variables (a real join) or not (a product)
     for i in range(nw):
-        vs = rng.sample(QVARS, rng.choice([2, 2, 3])) if joinvars else QVARS[2 * i:2 * i + 2]
+        vs = rng.sample(BVARS, rng.choice([2, 2, 3])) if joinvars else BVARS[2 * i:2 * i + 2]
         blocks.append([gen_pat(rng, vs, spreds[streams[i]]) for _ in range(rng.choice([1, 1, 1, 2]))])
     static_p, static_t = [], []
     if rng.random() < 0.35 or nw == 1:
         used = sorted({x[1] for b in blocks for p in b for x in p if x[0] == "v"})
-        static_p = [(("v", rng.choice(used or QVARS)), ("c", "q0"), ("v", rng.choice(QVARS)))]
+        static_p = [(("v", rng.choice(used or BVARS)), ("c", "q0"), ("v", rng.choice(BVARS)))]
         static_t = [(rng.choice(ENT), "q0", rng.choice(OBJ)) for _ in range(rng.randint(0, 8))]
         if rng.random() < 0.4:                      # static triples that would match window blocks if they leaked
             static_t += [(rng.choice(ENT), rng.choice(PRED), rng.choice(OBJ)) for _ in range(4)]
     c = {"windows": wins, "blocks": blocks, "static_p": static_p, "static_t": static_t,
          "policy": rng.choice(["wait", "wait", "steal", "steal", "timeout_steal", "timeout_drop"]),
          "op": rng.choice("RRRRRID"), "stop": rng.random() < 0.6}
+    if nw >= 2 and rng.random() < 0.5:              # WINDOW blocks written in another order than the declarations
+        c["block_order"] = rng.sample(range(nw), nw)
     ts = {s: 0 for s in streams}
     evs = []
     for _ in range(rng.randint(8, nmax)):
         s = rng.choice(streams)
         ts[s] += rng.choice([0, 1, 1, 1, 2, 3])
         evs.append((s, rng.choice(ENT), rng.choice(spreds[s]), rng.choice(OBJ), ts[s]))
+    c["evs"] = evs
+    return c
+
+
+def _fill(rng, streams, spreds, n, order=None):
+    """n random in-order events; `order` (a list of stream keys) fixes which stream the k-th event goes to"""
+    ts = {s: 0 for s in streams}
+    evs = []
+    for k in range(n):
+        s = order[k] if order else rng.choice(streams)
+        ts[s] += rng.choice([1, 1, 1, 2])
+        evs.append((s, rng.choice(ENT), rng.choice(spreds[s]), rng.choice(OBJ), ts[s]))
+    return evs, ts
+
+
+def gen_routing_case(rng):
+    """streams whose IRIs differ only in the namespace; every window has its own predicate (outside the known class);
+    the LAST item of a later-declared window's stream is a stray that would match an earlier window's block: with correct
+    routing it is only ever reported by its own window, at the flush, after the earlier window's last firing"""
+    nw = rng.choice([2, 2, 3])
+    streams = rng.sample(NS_STREAMS, nw)
+    preds = rng.sample(["p0", "p1", "p2", "r0", "r1"], nw)
+    wins = [{"w": rng.choice([2, 3, 4, 6]), "s": rng.choice([1, 2, 3]), "stream": streams[i]} for i in range(nw)]
+    blocks = [[(("v", BVARS[2 * i]), ("c", preds[i]), ("v", BVARS[2 * i + 1]))] for i in range(nw)]
+    spreds = {streams[i]: [preds[i]] for i in range(nw)}
+    evs, ts = _fill(rng, streams, spreds, rng.randint(3 * nw, 14))
+    for i in range(nw):                              # every window has something to report
+        ts[streams[i]] += 1
+        evs.append((streams[i], rng.choice(ENT), preds[i], rng.choice(OBJ), ts[streams[i]]))
+    j = rng.randrange(1, nw)
+    i = rng.randrange(0, j)
+    evs.append((streams[j], "e3", preds[i], "e3", ts[streams[j]] + 1))      # the stray, last on stream j
+    c = {"windows": wins, "blocks": blocks, "static_p": [], "static_t": [], "policy": rng.choice(["wait", "steal"]),
+         "op": "R", "stop": True, "evs": evs}
+    if rng.random() < 0.5:
+        c["block_order"] = rng.sample(range(nw), nw)
+    return c
+
+
+def gen_pairing_case(rng):
+    """WINDOW blocks written in another order than the FROM NAMED WINDOW declarations (or a declared window without a
+    block); every window has its own predicate; the first window's stream starts with a decoy that would match ANOTHER
+    window's block and has left the first window before the other windows report anything"""
+    nw = rng.choice([2, 2, 3])
+    streams = ["s%d" % i for i in range(nw)] if rng.random() < 0.5 else rng.sample(NS_STREAMS, nw)
+    preds = rng.sample(["p0", "p1", "p2", "r0", "r1"], nw)
+    wins = [{"w": rng.choice([1, 2]), "s": rng.choice([1, 2]), "stream": streams[i]} for i in range(nw)]
+    blocks = [[(("v", BVARS[2 * i]), ("c", preds[i]), ("v", BVARS[2 * i + 1]))] for i in range(nw)]
+    c = {"windows": wins, "blocks": blocks, "static_p": [], "static_t": [], "policy": rng.choice(["wait", "steal"]), "op": "R"}
+    j = rng.randrange(1, nw)
+    evs = [(streams[0], "e3", preds[j], "e3", 1)]                         # the decoy
+    t0 = 1
+    for _ in range(rng.randint(4, 7)):                                    # stream 0 moves on: the decoy is evicted
+        t0 += rng.choice([1, 2])
+        evs.append((streams[0], rng.choice(ENT), preds[0], rng.choice(OBJ), t0))
+    if rng.random() < 0.2:
+        # a declared window without a block (plan ?s ?p ?o): only outside the known class while the store holds nothing
+        # but its own content, so its stream comes first and there is no flush
+        c["no_block"] = [0]
+        c["blocks"][0] = [(("v", "s"), ("v", "p"), ("v", "o"))]
+        c["stop"] = False
+    else:
+        c["block_order"] = rng.choice([o for o in __import__("itertools").permutations(range(nw)) if list(o) != list(range(nw))])
+        c["block_order"] = list(c["block_order"])
+        c["stop"] = rng.random() < 0.7
+    rest = [s for s in streams[1:] for _ in range(rng.randint(2, 4))] + [streams[0]] * rng.randint(0, 2 if not c.get("no_block") else 0)
+    rng.shuffle(rest)
+    ts = {s: 0 for s in streams}
+    ts[streams[0]] = t0
+    for s in rest:
+        ts[s] += rng.choice([1, 1, 2])
+        evs.append((s, rng.choice(ENT), preds[streams.index(s)], rng.choice(OBJ), ts[s]))
+    c["evs"] = evs
+    return c
+
+
+def gen_litjoin_case(rng):
+    """joins on 2-3 shared variables whose values are literals with blanks and concatenation-ambiguous combinations
+    ("Anna Maria","Smith") / ("Anna","Maria Smith"); window x window and window x static; own predicates per side"""
+    k = rng.choice([2, 2, 3])
+    shared = ["d", "e", "f"][:k]
+    lp = ["r0", "r1", "r2"][:k]                       # left side: ?a r_i ?shared_i
+    rp = ["r3", "r4", "r5"][:k]                       # right side: ?b r_(3+i) ?shared_i
+    pool2 = [("Anna Maria", "Smith"), ("Anna", "Maria Smith"), ("Anna", "Smith"), ("Anna Maria Smith", "Maria"), ("Anna Maria", "Maria Smith")]
+    pool3 = [("A", "B C", "D"), ("A B", "C", "D"), ("A", "B", "C D"), ("A B C", "D", "D"), ("A", "B C", "C D"), ("A B", "C", "C D")]
+    pool = pool2 if k == 2 else pool3
+    left = [(("v", "a"), ("c", lp[i]), ("v", shared[i])) for i in range(k)]
+    right = [(("v", "b"), ("c", rp[i]), ("v", shared[i])) for i in range(k)]
+    static = rng.random() < 0.45
+    streams = ["s0"] if static else (["s0", "s1"] if rng.random() < 0.5 else rng.sample(NS_STREAMS, 2))
+    width = rng.choice([4, 6, 8])
+    wins = [{"w": width, "s": rng.choice([2, width]), "stream": st} for st in streams]
+    c = {"windows": wins, "blocks": [left] if static else [left, right], "static_p": right if static else [], "static_t": [],
+         "policy": rng.choice(["wait", "steal"]), "op": rng.choice("RRRI"), "stop": True}
+    if not static and rng.random() < 0.5:
+        c["block_order"] = [1, 0]
+    evs, ts = [], {st: 0 for st in streams}
+
+    def person(stream, subj, preds_, vals):
+        ts[stream] += 1
+        for pr, v in zip(preds_, vals):
+            evs.append((stream, subj, pr, v, ts[stream]))
+    for _ in range(rng.randint(2, 4)):
+        person(streams[0], rng.choice(ENT), lp, rng.choice(pool))
+        if not static:
+            person(streams[1], rng.choice(ENT), rp, rng.choice(pool))
+    if static:                                         # one subject per static person
+        for subj, vals in zip(ENT, rng.sample(pool, rng.randint(2, 4))):
+            c["static_t"] += [(subj, pr, v) for pr, v in zip(rp, vals)]
     c["evs"] = evs
     return c
 
@@ -262,7 +414,7 @@ def evaluate(ctx, binpath, cases, stream, nseeds, witness_ids=()):
         mt_rows = [canon_impl_rows(run["rows"]) for run in im["mt"]]
         e_mt = "[" + "; ".join("check_mt %s %s %s" % (cfg, reports, coq_rows(r)) for r in mt_rows) + "]"
         lock = im.get("lockstep")
-        if lock:
+        if lock and "calls" in lock:
             macts, ncalls = [], 0
             for call in im["calls"]:
                 if call["k"] < 0:
@@ -343,9 +495,17 @@ def evaluate(ctx, binpath, cases, stream, nseeds, witness_ids=()):
             k = next((i for i in range(len(m_calls)) if i_calls[i] != m_calls[i]), None)
             ctx.broken("correspondence", stream, "single-thread implementation and model differ (the Spec oracle accepts the implementation)",
                        {"case": c, "call": k, "impl": i_calls[k] if k is not None else None, "model": m_calls[k] if k is not None else None})
+        # ---- the engine's own windows must fire where the probe windows (the specification of routing + windowing) fire
+        wrong = [(call["k"], len(call["firings"]), call.get("engine_firings")) for call in im["calls"]
+                 if call.get("engine_firings") is not None and call["engine_firings"] != len(call["firings"])]
+        if wrong:
+            st["impl_model_mismatches"] += 1
+            ctx.broken("correspondence", stream, "at call %s the engine handed %s window contents to its processors, the probe windows "
+                       "fed by exact stream IRI report %s firings (stream routing / window registration differ)" % (wrong[0][0], wrong[0][2], wrong[0][1]),
+                       {"case": c, "calls": wrong[:5]})
         # ---- multi thread, lockstep: coordinator model correspondence
         lock = im.get("lockstep")
-        if lock:
+        if lock and "calls" in lock:
             st["lockstep_runs"] += 1
             if lock.get("timeout") and not lock.get("thread_panicked"):
                 infra("lockstep quiescence could not be established within the timeout (case %r)" % (c,))
@@ -432,6 +592,10 @@ def run(ctx):
     rnd = [gen_case(ctx.rng) for _ in range(n)]
     ctx.sample(rnd[0])
     evaluate(ctx, binpath, rnd, "random", nseeds)
+    m = 1200 if ctx.thorough else 150
+    evaluate(ctx, binpath, [gen_routing_case(ctx.rng) for _ in range(m)], "routing_namespaces", nseeds)
+    evaluate(ctx, binpath, [gen_pairing_case(ctx.rng) for _ in range(m)], "block_pairing", nseeds)
+    evaluate(ctx, binpath, [gen_litjoin_case(ctx.rng) for _ in range(m)], "literal_joins", nseeds)
     lng = [gen_case(ctx.rng, nmax=60) for _ in range(n // 8)]
     for i, c in enumerate(lng):          # every second long case: the coordinator lags behind until everything was pushed
         c["hold_coord"] = i % 2 == 0
